@@ -235,6 +235,7 @@ def run(repo='/repo', tier='quick'):
     c16g(db, res)
     c16h(db, res)
     c16j(db, res)
+    c16k(db, res)
     c16i(db, res)
     res.assumptions.append('"no request byte skipped or parsed twice" is decided only as: the suspension/probe paths do not move the cursor; values are not tracked')
     if tier == 'thorough':
@@ -317,6 +318,24 @@ def c16j(db, res):
             res.check(ok, 'C16.j', '%s:%s:after-look-ahead' % (name, c.get('callee')), 'reached only on a closed stream or after the look-ahead',
                       '%s completes the transaction on a path that has not looked at what follows in the chunk (guards: %s): bytes that follow the message in the same call - after a 2xx answer to CONNECT, the first tunnel bytes - are handed to the next state as if a new message began' % (name, witness), c['loc'])
     res.floor('C16.j', 'completion calls in the FINALIZE states', n, 4)
+
+
+def c16k(db, res):
+    """Between a 2xx answer to CONNECT and the probe's decision the connection is neither HTTP nor tunnel: the request side
+    is parked in its CONNECT states and looks at the first client bytes. The response side must not treat server bytes that
+    arrive in that window as the start of a new, request-less transaction (creating one re-points in_tx and forces the request
+    state machine into REQ_FINALIZE underneath the parked parser)."""
+    res.rule('C16.k', 'no transaction is invented while a CONNECT is undecided: every creation of a transaction by the response side (the unmatched-response arm) is under a test that the request side is not parked in a CONNECT state (in_state against htp_connp_REQ_CONNECT_*)')
+    n = 0
+    for name in P.state_functions(db, 'out'):
+        f = db.get(name)
+        for b, i, c in f.calls('htp_connp_tx_create'):
+            n += 1
+            facts = [a for a, e in P.facts_at(f, b)]
+            ok = any(a[0] == 'connp->in_state' and 'CONNECT' in str(a[2]) for a in facts)
+            res.check(ok, 'C16.k', '%s:creates-tx:connect-undecided' % name, 'guarded by the request side\'s CONNECT states',
+                      '%s creates a request-less transaction for bytes it cannot match without asking whether the request side is parked on a CONNECT (guards: %s): when the server speaks first after a 2xx answer to CONNECT its bytes start new transactions, in_tx is re-pointed under the waiting request parser and tunnel mode is never entered' % (name, facts[-2:]), c['loc'])
+    res.floor('C16.k', 'transaction creations on the response side', n, 1)
 
 
 def c16h(db, res):
